@@ -13,14 +13,15 @@ Rec0(p, dir) == LET g == Gen(p) IN
 \* this run's share of the programs, plus (AllSuspects) every program whose model outcome is not plain ok/fail
 Rec(p) == Rec0(p, "p")
 NamedProgs == {p \in ProgsR : p.shape.A \in {<<"i2i">>, <<"i2s">>, <<"slcA", "i2s">>} /\ p.shape.B = <<"i2i">>}
-\* ... plus every program on which a named deviation of the protocol ends differently (only programs with contexts can)
+\* Deviation-guided selection (kept for experiments, not part of Scen): programs on which a named deviation of the protocol ends
+\* differently.  For "availcreator" the set is empty in this family (one context type): measured, so nothing is selected.
 \* (an eighth of them per run, by shape hash)
 SensMine(q) == (ShapeHash(q.shape.A) + 7 * ShapeHash(q.shape.B)) % 8 = Part % 8
 Sensitive(q) == q.rootCtx /\ q.extCtx /\ Outcome(Gen(q @@ [dev |-> "availcreator"])) # Outcome(Gen(q))
-Scen == {Rec(p) : p \in {q \in ProgsR : Mine(q) \/ (AllSuspects /\ Outcome(Gen(q)) \notin {"ok", "fail"}) \/ (SensMine(q) /\ Sensitive(q))}}
+Scen == {Rec(p) : p \in {q \in ProgsR : Mine(q) \/ (AllSuspects /\ Outcome(Gen(q)) \notin {"ok", "fail"})}}
          \cup {Rec0(p, d) : p \in NamedProgs, d \in DirNames \ {"p"}}
 ASSUME ndJsonSerialize(ScenOut, SetToSeq(Scen))
-ASSUME PrintT(<<"exported", Cardinality(Scen), "sensitive", Cardinality({q \in ProgsR : q.rootCtx /\ q.extCtx /\ SensMine(q) /\ Sensitive(q)})>>)
+ASSUME PrintT(<<"exported", Cardinality(Scen), "sensitive-not-selected">>)
 VARIABLE x
 Init == x = 0
 Next == x' = x
